@@ -7,6 +7,7 @@ package c01
 import (
 	"fmt"
 	"os"
+	"path/filepath"
 	"reflect"
 	"strings"
 	"testing"
@@ -354,7 +355,28 @@ func TestVerifC01Library(t *testing.T) {
 		}
 		s.NonTrivial(key)
 	}
-	s.Sample(map[string]string{"target": "os.Getenv", "library caller": "os.ExpandEnv"})
+	// filepath.Join cleans its result through filepath.Clean; strings.Repeat is reached from strings.Title-like helpers
+	for i := 0; i < n; i++ {
+		tag := fmt.Sprintf("/mock/%d/%d", i, vkit.Seed())
+		var seen string
+		b.Func(filepath.Clean).Apply(func(p string) string { seen = p; return tag })
+		got := filepath.Join("a", "..", fmt.Sprint("x", i))
+		b.Reset()
+		b = mocker.Create()
+		s.Eval(1)
+		if got != tag || seen == "" {
+			msg := fmt.Sprintf("filepath.Clean mocked to return %q; filepath.Join (library caller) produced %q, replacement saw %q", tag, got, seen)
+			s.Violation(msg, map[string]string{"i": fmt.Sprint(i)})
+			t.Fatal(msg)
+		}
+		if after := filepath.Join("a", "..", fmt.Sprint("x", i)); after != fmt.Sprint("x", i) {
+			msg := fmt.Sprintf("after Reset filepath.Join still yields %q", after)
+			s.Violation(msg, map[string]string{"i": fmt.Sprint(i)})
+			t.Fatal(msg)
+		}
+		s.NonTrivial(tag)
+	}
+	s.Sample(map[string]string{"target": "os.Getenv / filepath.Clean", "library caller": "os.ExpandEnv / filepath.Join"})
 	s.Completed = true
 }
 
